@@ -185,5 +185,5 @@ def parts(tier):
              shards={"quick": 16, "thorough": 16}),
         Part("hyp-chains", "hyp", check=check_chain,
              strategy=lambda t: chains(80 if t == "quick" else 200),
-             examples={"quick": 800, "thorough": 9600}, shards={"quick": 16, "thorough": 16}),
+             examples={"quick": 2400, "thorough": 16000}, shards={"quick": 16, "thorough": 16}),
     ]
